@@ -484,9 +484,9 @@ def _label(e):
 L_CHOICES = [8, 5, 12, 3, 1, 16]
 
 
-def explore(ctx, name, r, depth, combos, every=None):
+def explore(ctx, name, r, depth, combos, every=None, extra=()):
     """replay all paths of the emitted graph; combos = list of (mode, FdTs, Ts); every path is run under
-    `every` combos chosen round-robin (None: under all of them)"""
+    `every` combos chosen round-robin (None: under all of them) plus one of `extra` (round-robin)"""
     ctx.account(r, MODULE, name)
     g = graph.Graph(r.emitted, label=_label)
     _GRAPHS[name] = g
@@ -497,6 +497,8 @@ def explore(ctx, name, r, depth, combos, every=None):
     jobs = []
     for pi, p in enumerate(paths):
         sel = combos if every is None else [combos[(pi * every + k + ctx.seed) % len(combos)] for k in range(every)]
+        if extra:
+            sel = list(sel) + [extra[(pi + ctx.seed) % len(extra)]]
         for ci, (mode, fdts, Ts) in enumerate(sel):
             L = L_CHOICES[(pi + ci + ctx.seed) % len(L_CHOICES)]
             jobs.append((name, p, mode, fdts / Ts, Ts, L, (ctx.seed * 1000003 + pi * 31 + ci) % (2 ** 31)))
@@ -552,20 +554,28 @@ def model_devs(ctx):
 
 
 def configs(tier):
-    """name -> (model kwargs, path depth, combos, every)"""
+    """name -> (model kwargs, path depth, combos, every[, extra combos: one per path, round-robin])"""
     thorough = tier == "thorough"
     Ts2 = [1e-3, 1e-9]
     Ts4 = [1e-9, 1e-6, 1e-3, 1.0]
+    # slow fading: a NON-zero Doppler whose product with the sampling interval is tiny (Fd = 7 Hz at Ts = 1 ns).
+    # Only a long run shows that such a channel moves at all (Fd*Ts = 1e-9 advances 63 rad in 10^10 samples);
+    # the sequences reach that through warm = 999e7 and SkipBig.  Compared like every other configuration
+    # (tolerance = 1 % of a sampling interval + 1e-9, see c14_model.py); time invariance is demanded ONLY of
+    # the configurations with Fd exactly 0.
+    slow = [(7e-9, 1e-9), (1e-9, 1e-3), (1e-8, 1e-6), (1e-7, 1.0), (3e-9, 1.0), (1e-8, 1e-9), (1e-7, 1e-6), (2.5e-8, 1e-3)]
     c = {}
     if not thorough:
         rel = [("rel", 0.05, Ts) for Ts in Ts2]
+        srel = [("rel", f, Ts) for f, Ts in slow[:4]]
+        sfun = [("relfunc", f, Ts) for f, Ts in slow[:4]]
         # the alphabet of DESIGN.md: {Gen 1, Gen 3, Gen 1000, Skip 2, SkipBig, SetShape}, all sequences <= 4,
         # from a fresh generator and from one that has already produced 999 * 10^7 samples (10^10 after one SkipBig)
-        c["chunk"] = (dict(warm=(0, 999)), 5, rel, None)
+        c["chunk"] = (dict(warm=(0, 999)), 5, rel, None, srel)
         c["similar"] = (dict(gens=(3,), skips=(2,), big=(), shapes=((2, 3),), shape0=((3,),), maxgens=2, gendef=True,
-                             maxlen=4), 5, [("rel", 0.05, 1e-3)], None)
-        c["func"] = (dict(gens=(1, 3), skips=(2,), big=(1,), shapes=((2,),), maxlen=3), 4,
-                     [("relfunc", 0.05, Ts) for Ts in Ts2], None)
+                             maxlen=4), 5, [("rel", 0.05, 1e-3)], None, srel[:2])
+        c["func"] = (dict(gens=(1, 3), skips=(2,), big=(1,), shapes=((2,),), warm=(0, 999), maxlen=3), 4,
+                     [("relfunc", 0.05, Ts) for Ts in Ts2], 1, sfun)
         c["zero-doppler"] = (dict(gens=(1, 3), skips=(2,), big=(1,), shapes=((2,),), maxlen=3), 4,
                              [("rel", 0.0, 1e-3)], None)
         lat = dict(gens=(1, 3, 6), skips=(1, 2), big=(1,), shapes=((2,),), maxlen=3, lattice=True)
@@ -576,13 +586,15 @@ def configs(tier):
                               maxgens=2, gendef=True, maxlen=3), 4, [("rayleigh", 0.0, 1.0)], None)
     else:
         rel = [("rel", f, Ts) for Ts in Ts4 for f in (0.05, 0.011, 0.23)]
-        c["chunk"] = (dict(warm=(0, 999), maxlen=6), 7, rel, 1)
-        c["chunk-big"] = (dict(gens=(1, 3, 1000, 100000), warm=(0, 999), maxlen=5), 6, rel, 1)
-        c["chunk-all"] = (dict(warm=(0, 999), maxlen=4), 5, rel, None)
+        srel = [("rel", f, Ts) for f, Ts in slow]
+        sfun = [("relfunc", f, Ts) for f, Ts in slow]
+        c["chunk"] = (dict(warm=(0, 999), maxlen=6), 7, rel + srel, 1)
+        c["chunk-big"] = (dict(gens=(1, 3, 1000, 100000), warm=(0, 999), maxlen=5), 6, rel + srel, 1)
+        c["chunk-all"] = (dict(warm=(0, 999), maxlen=4), 5, rel + srel, None)
         c["similar"] = (dict(gens=(1, 3), skips=(2,), big=(1,), shapes=((2, 3), ()), shape0=((3,),), maxgens=2,
-                             gendef=True, maxlen=4), 5, [("rel", 0.05, Ts) for Ts in Ts4], 2)
+                             gendef=True, maxlen=4), 5, [("rel", 0.05, Ts) for Ts in Ts4] + srel[:4], 2)
         c["func"] = (dict(gens=(1, 3, 1000), skips=(2,), big=(1,), shapes=((2,),), warm=(0, 999), maxlen=5), 6,
-                     [("relfunc", f, Ts) for Ts in Ts4 for f in (0.05, 0.23)], 2)
+                     [("relfunc", f, Ts) for Ts in Ts4 for f in (0.05, 0.23)] + sfun, 2)
         c["zero-doppler"] = (dict(gens=(1, 3, 1000), skips=(2,), big=(1,), shapes=((2,),), warm=(0, 999), maxlen=4), 5,
                              [("rel", 0.0, Ts) for Ts in Ts4], None)
         lat = dict(gens=(1, 3, 6, 1000), skips=(1, 2), big=(1,), shapes=((2,), ()), maxlen=4, lattice=True, warm=(0, 999))
@@ -637,7 +649,7 @@ def run(ctx):
         ctx.account(long_.result(), MODULE, "long (model only: sequences up to 12 / 8 requests)")
     ctx.notes["wall_tlc_s"] = round(time.time() - ctx.t0, 1)
     ctx.require_actions(["Construct", "DoGenerate", "DoGenDefault", "DoSkip", "DoSkipBig", "DoSetShape", "DoSimilar"])
-    work = [explore(ctx, n, runs[n], cf[n][1], cf[n][2], cf[n][3]) for n in cf]
+    work = [explore(ctx, n, runs[n], *cf[n][1:]) for n in cf]
     jobs = [j for _, _, js in work for j in js]
     order = list(range(len(jobs)))
     random.Random(ctx.seed).shuffle(order)       # spread the expensive paths over the workers
